@@ -59,7 +59,7 @@ func cmdVC(args []string) {
 	fs := flag.NewFlagSet("vc", flag.ExitOnError)
 	dump := fs.String("dump", "", "directory to dump queries")
 	timeout := fs.Int("t", 10, "timeout seconds")
-	sv := fs.String("solvers", "z3-new,cvc5", "solvers")
+	sv := fs.String("solvers", "z3-new,z3-em,cvc5", "solvers")
 	only := fs.String("only", "", "only obligations containing this text")
 	verbose := fs.Bool("v", false, "print failing output")
 	fs.Parse(args)
